@@ -216,7 +216,7 @@ class Ctx:
             ch = [p for p, t in files.items() if write_if_changed(os.path.join(TH, p), t)]
             mkproject()
         if ch:
-            self.log("regenerated from /repo:", ", ".join(ch))
+            self.log("regenerated from %s:" % REPO, ", ".join(ch))
         self.obligation("regenerate-model-from-source", "translation", True,
                         "files: " + ", ".join(sorted(files)))
         self.extra["generated_sha256"] = {p: hashlib.sha256(t.encode()).hexdigest()[:16] for p, t in files.items()}
@@ -389,8 +389,16 @@ class Ctx:
             rc, out = sh("ulimit -s unlimited 2>/dev/null; " + cmd_t % path, cwd=self.casedir, timeout=timeout + 30)
             return si, idxs, rc, out
 
-        with cf.ThreadPoolExecutor(max_workers=NCPU) as ex:
-            for si, idxs, rc, out in ex.map(one, jobs):
+        workers = max(1, min(NCPU, int(os.environ.get("VERIF_COQ_JOBS", "8"))))
+        with cf.ThreadPoolExecutor(max_workers=workers) as ex:
+            results = list(ex.map(one, jobs))
+        # a shard killed from outside (OOM killer: 137, timeout: 124) is retried once, alone
+        for k, (si, idxs, rc, out) in enumerate(results):
+            if rc in (137, 124, -9) and "@@BAD" not in out:
+                self.log("shard %d of batch %s was killed (rc=%d); retrying it alone" % (si, name, rc))
+                results[k] = one(jobs[k])
+        if True:
+            for si, idxs, rc, out in results:
                 m = re.search(r"@@BAD(.*?)@@DAB", out, re.S)
                 if m:
                     body = m.group(1)
